@@ -69,8 +69,8 @@ register('C13', 'Hypothesis-generated and deterministic graded meshes; smallest 
          'numpy eigvalsh; serial assembly path', 'DESIGN.md 3/C13')
 
 register('C07', 'Hypothesis (element, time class, position class) points against a 1-D graded reference integral; integral clause against bilform',
-         'evaluate / evaluate_exact / evaluate_vector at stratified points incl. end points, the near layer, the seam, neighbouring sides, with the three tolerances '
-         'of the property; tensor Gauss integral of the evaluation over later test elements reproduces the Galerkin entry.',
+         'evaluate / evaluate_exact / evaluate_vector at stratified points incl. end points, the near layer, the seam, neighbouring sides, points facing the element across thin polygons, line/arc curves, both values of the operator switch, thin old elements, with the three tolerances '
+         'of the property (known finding K7 recorded); tensor Gauss integral of the evaluation over later test elements reproduces the Galerkin entry.',
          'vlib/refint.evaluate at two resolutions; preconditions of the property (1e-5 end distance, ratio <= 16) enforced and counted', 'DESIGN.md 3/C07')
 
 register('C16', 'bounded exhaustive BFS over cell refinements + Hypothesis sequences + complete enumeration of dyadic boundary segments against an integer-grid model',
@@ -85,7 +85,7 @@ register('C08', 'Hypothesis (domain, history, boundary leaf, initial datum) agai
 
 register('C17', 'Hypothesis-generated call histories against one cache directory with file-damage injection; bitwise comparison with single-pair evaluation',
          'Every assemble / linform_vector call of a generated history (inline, serial, pool with 1..16 workers, cache hit, recomputation after delete / empty / header / half / '
-         'one-byte-short / garbage damage, fresh operator objects, colliding-repr lists of two curves, equal-size lists) returns the single-pair array bit for bit and leaves a loadable file.',
+         'one-byte-short / garbage damage, faults in the middle of a computation, fresh operator objects, colliding-repr lists of two curves, equal-size and long lists, chunk sizes that do not divide the list, a 160 x 120 matrix) returns the single-pair array bit for bit and leaves a loadable file.',
          'OS scheduling of the workers is not controlled; worker count, chunking and history are', 'DESIGN.md 3/C17')
 
 register('C20', 'Hypothesis (mesh history, data configuration, density, path) against an independent recomputation on a replayed, really bisected mesh',
